@@ -462,6 +462,8 @@ def r24_call_shim(src, item, ed, opts):
             c = [n for n in nodes_of(item, "macro") if n["name"] == sp["name"]]
         elif kind == "unary":
             c = [n for n in nodes_of(item, "unary") if n["op"] == sp["op"]]
+        elif kind == "binary":
+            c = [n for n in nodes_of(item, "binary") if n["op"] == sp["op"] and (sp.get("right") is None or src.text(*n["right"]).replace(" ", "") == sp["right"].replace(" ", ""))]
         elif kind == "unsafe":
             c = nodes_of(item, "unsafe")
         elif kind == "ref_index":
@@ -492,6 +494,9 @@ def r24_call_shim(src, item, ed, opts):
                     env[f"arg{j}"] = src.text(*a["range"])
             elif kind == "unary":
                 env["operand"] = src.text(*n["operand"])
+            elif kind == "binary":
+                env["left"] = src.text(*n["left"])
+                env["right"] = src.text(*n["right"])
             elif kind == "cast":
                 env["expr"] = src.text(*n["expr"])
             elif kind == "unsafe":
